@@ -265,3 +265,12 @@ def run(ctx):
     r5_settings_delta(ctx)
     r5b_same_streams(ctx)
     r6_signed_windows(ctx)
+
+
+_run_rules = run
+
+
+def run(ctx):
+    _run_rules(ctx)
+    from .. import boundaries
+    boundaries.check(ctx, 'C02.RB', 'C02')
